@@ -115,6 +115,8 @@ def ev_call(ex, n, st, spec, b):
         if name in st.env:
             fv = st.env[name]
             return call_value(ex, fv, [E(a) for a in n.args], {k.arg: E(k.value) for k in n.keywords}, st, n, spec)
+    if isinstance(f, ast.Name) and f.id == "sum" and n.args and isinstance(n.args[0], (ast.GeneratorExp, ast.ListComp)):
+        n.args[0]._sum_context = True
     args = []
     for a in n.args:
         if isinstance(a, ast.Starred):
@@ -315,7 +317,7 @@ def dispatch_split(ex, base, tag, alts, attr, args, kwargs, st, node, spec):
     for mcls, concrete in alts:
         cond = z3.Or(*[tag == w.cls_tag(cn) for cn in concrete])
         sub = st.copy()
-        sub.pc.append(cond)
+        sub.decide(cond)
         b2 = ObjV(concrete[0] if len(concrete) == 1 else mcls, base.fields)
         m = w.find_method(mcls, attr)
         c = w.contract_for(f"{mcls}.{attr}", ex.cx)
@@ -328,13 +330,13 @@ def dispatch_split(ex, base, tag, alts, attr, args, kwargs, st, node, spec):
     res = results[-1][1]
     any_mod = any(r[2] is not None for r in results)
     nb = results[-1][2] or base
-    extra = [z3.Implies(results[-1][0], z3.And(*results[-1][3].pc[len(st.pc) + 1:])) if len(results[-1][3].pc) > len(st.pc) + 1 else z3.BoolVal(True)]
+    extra = []
+    for i, (cond, r, n2, sub) in enumerate(results):
+        suf = [f_ for f_ in sub.pc[len(st.pc):] if not f_.eq(cond)]
+        extra += [z3.Implies(cond, f_) for f_ in suf]
     for cond, r, n2, sub in reversed(results[:-1]):
         res = merge_val(cond, r, res)
         nb = merge_val(cond, n2 or base, nb)
-        suf = sub.pc[len(st.pc) + 1:]
-        if suf:
-            extra.append(z3.Implies(cond, z3.And(*suf)))
     st.pc.append(z3.Or(*[c for c, _, _, _ in results]))
     st.pc += extra
     return res, (nb if any_mod else None)
@@ -353,7 +355,7 @@ def inline_function(ex, fnode, selfv, args, kwargs, st, node, spec, name="?", cl
         gen = True
     else:
         gen = False
-    sub = St(bound, st.pc)
+    sub = St(bound, st.pc, st.dec)
     if is_method:
         sub.env[fnode.args.args[0].arg] = selfv
     cx.inlined.add(name)
@@ -371,6 +373,7 @@ def inline_function(ex, fnode, selfv, args, kwargs, st, node, spec, name="?", cl
         cx.loop_ids = saved_loops
         cx.cur_fn = saved_fnname
     finals = []
+    mpc, mdec = st.mark()
     for o in outs:
         if o.kind in ("normal", "return"):
             val = o.val if o.kind == "return" else None
@@ -378,7 +381,8 @@ def inline_function(ex, fnode, selfv, args, kwargs, st, node, spec, name="?", cl
                 val = o.st.env["__yielded__"]
             finals.append((o.st, val))
         elif o.kind == "raise":
-            cond = z3.And(*o.st.pc[len(st.pc):]) if len(o.st.pc) > len(st.pc) else z3.BoolVal(True)
+            ds = o.st.dec[mdec:]
+            cond = z3.And(*ds) if ds else z3.BoolVal(True)
             cx.pending.append((cond, o.val))
         else:
             raise Unsupported(f"{o.kind} escaping function {name}")
@@ -386,21 +390,29 @@ def inline_function(ex, fnode, selfv, args, kwargs, st, node, spec, name="?", cl
         # always raises
         st.pc.append(z3.BoolVal(False))
         return None, None
-    base = len(st.pc)
     guards = []
+    facts = []
     for s_, _ in finals:
-        suf = s_.pc[base:]
-        guards.append(z3.And(*suf) if len(suf) > 1 else (suf[0] if suf else z3.BoolVal(True)))
+        ds = s_.dec[mdec:]
+        g = z3.And(*ds) if len(ds) > 1 else (ds[0] if ds else z3.BoolVal(True))
+        guards.append(g)
+        dids = {d.get_id() for d in ds}
+        for f_ in s_.pc[mpc:]:
+            if f_.get_id() not in dids:
+                facts.append(f_ if not ds else z3.Implies(g, f_))
     res = finals[-1][1]
-    new_self = finals[-1][0].env.get(fnode.args.args[0].arg) if is_method else None
+    sname = fnode.args.args[0].arg if is_method else None
+    new_self = finals[-1][0].env.get(sname) if is_method else None
     for g, (s_, v) in zip(reversed(guards[:-1]), reversed(finals[:-1])):
         res = merge_val(g, v, res, name + ".result")
         if is_method:
-            new_self = merge_val(g, s_.env.get(fnode.args.args[0].arg), new_self, name + ".self")
+            new_self = merge_val(g, s_.env.get(sname), new_self, name + ".self")
     if len(finals) == 1:
         st.pc[:] = finals[0][0].pc
+        st.dec[:] = finals[0][0].dec
     else:
         st.pc.append(z3.Or(*guards))
+        st.pc += facts
     return res, new_self
 
 
@@ -439,20 +451,20 @@ def apply_contract(ex, c, selfv, args, kwargs, st, node, spec):
             continue
         if isinstance(v_, Opt) and t_ is not None and not isinstance(t_, api.OptT) and not spec:
             bound[p_] = ex.need_not_none(v_, st, node, f"argument {p_} of {c.name}")
-    pre = St(bound, st.pc)
+    pre = St(bound, st.pc, st.dec)
     sub_ex = ex
     saved_entry = cx.entry
     if not spec:
         for lab, e in c._requires:
             g = boolify(sub_ex.ev(e, pre, True))
-            cx.oblige(f"call.{c.name}.{lab}.L{getattr(node, 'lineno', 0)}", "call_pre", st, g, getattr(node, "lineno", 0))
+            cx.oblige(f"call.{c.name}.{lab}", "call_pre", st, g, getattr(node, "lineno", 0))
     # raises (conditions in the pre-state)
     for exc, when in c._raises:
         cond = boolify(sub_ex.ev(when, pre, True)) if when is not None else fresh(f"raises.{c.name}.{exc}", B)
         if not spec:
             cx.pending.append((cond, exc))
             st.pc.append(z3.Not(cond))
-    post = St(bound, st.pc)
+    post = St(bound, st.pc, st.dec)
     inv = []
     for p in c.modifies:
         if p in post.env:
@@ -500,6 +512,8 @@ def ev_comprehension(ex, n, st, spec, b):
         raise Unsupported("nested comprehension")
     g = n.generators[0]
     kind, seq = ex.classify_iter(g.iter, st) if not b else _classify_with_binds(ex, g.iter, st, spec, b)
+    if kind == "seq" and seq[0] == "plain" and not g.ifs and getattr(n, "_sum_context", False):
+        return ("__gsum__", n, g, seq[1], dict(b))
     if kind != "items":
         h = ex.cx.spec.get("__comprehension__")
         if h is not None:
@@ -520,7 +534,7 @@ def ev_comprehension(ex, n, st, spec, b):
 
 
 def _classify_with_binds(ex, it, st, spec, b):
-    sub = St({**st.env, **b}, st.pc)
+    sub = St({**st.env, **b}, st.pc, st.dec)
     return ex.classify_iter(it, sub)
 
 
